@@ -1,0 +1,7 @@
+//go:build !verif
+
+package util
+
+// VerifYield names a yield point for the runtime verification harness; without the "verif" build
+// tag it is an empty function.
+func VerifYield(string) {}
